@@ -628,6 +628,61 @@ let suite_wspec (line : string) : string =
       Printf.sprintf "%s %s" id (String.concat ";" scans)
   | _ -> failwith "bad wspec case"
 
+(* ---------- suite: lock (ownership model) ---------- *)
+let suite_lock (line : string) : string =
+  match split_nonempty ' ' line with
+  | id :: steps ->
+      let w = ref world_init in
+      let contents : (string * string) list ref = ref [] in
+      let show_out = function OOk -> "ok" | OErr -> "err" | ONoHandle -> "nohandle" in
+      let is_open h = List.exists (fun x -> x = h) !w.w_open in
+      let res =
+        List.map
+          (fun st ->
+            let body = String.sub st 1 (String.length st - 1) in
+            match st.[0] with
+            | 'O' ->
+                let w', o = step0 !w (AOpen (name_id body)) in
+                w := w'; show_out o
+            | 'X' ->
+                let w', o = step0 !w (AClose (name_id body)) in
+                w := w'; show_out o
+            | 'D' ->
+                let w', o = step0 !w ADestroy in
+                if o = OOk then contents := [];
+                w := w'; show_out o
+            | 'P' ->
+                let i = String.index body ':' and j = String.index body '=' in
+                let h = name_id (String.sub body 0 i) in
+                if is_open h then begin
+                  let k = hex_of_bytes (parse_bytes (String.sub body (i + 1) (j - i - 1))) in
+                  let v = hex_of_bytes (parse_bytes (String.sub body (j + 1) (String.length body - j - 1))) in
+                  contents := (k, v) :: List.remove_assoc k !contents;
+                  "ok"
+                end else "nohandle"
+            | 'G' ->
+                let i = String.index body ':' in
+                let h = name_id (String.sub body 0 i) in
+                if is_open h then begin
+                  let k = hex_of_bytes (parse_bytes (String.sub body (i + 1) (String.length body - i - 1))) in
+                  match List.assoc_opt k !contents with Some v -> "v" ^ v | None -> "nf"
+                end else "nohandle"
+            | 'R' ->
+                (* racing opens: the first action to run wins iff the lock is free; winners are
+                   closed again afterwards *)
+                let w', o = step0 !w (AOpen (n_of_int 999999)) in
+                if o = OOk then begin
+                  let w'', _ = step0 w' (AClose (n_of_int 999999)) in
+                  w := w''; "wins=1"
+                end else "wins=0"
+            | 'Q' ->
+                if !w.w_lock <> None then "wins=0,notdestroyed" else "wins<=1"
+            | _ -> failwith "bad lock step")
+          steps
+      in
+      Printf.sprintf "%s %s" id (String.concat " " res)
+  | _ -> failwith "bad lock case"
+
 let () =
   let suite = Sys.argv.(1) in
   let f =
@@ -643,6 +698,7 @@ let () =
     | "dbhist" -> suite_dbhist
     | "dumpcheck" -> suite_dumpcheck
     | "wspec" -> suite_wspec
+    | "lock" -> suite_lock
     | _ -> failwith ("unknown suite " ^ suite)
   in
   try
